@@ -105,6 +105,11 @@ TReturn ==
              \* abort is the way out of an abortable error: it fails only when the producer is beyond recovery
              \* (an abort called BEFORE the error surfaced may raise it and has to be repeated -- named deviation)
              /\ (c.op \in {"abort", "ctx_exit_exc"} /\ c.st = "ABORTABLE_ERROR" /\ ~Ev.ok) => tstate[i] = "FATAL_ERROR"
+             \* C16: what a successful call leaves behind -- commit / abort / context exit end the transaction (READY: a new
+             \* one can begin), begin opens one; a context exit that returns silently on a FATAL producer stays FATAL
+             /\ (Ev.ok /\ c.op \in {"commit", "ctx_exit_ok", "abort", "ctx_exit_exc"}) =>
+                   tstate[i] = (IF c.st = "FATAL_ERROR" THEN "FATAL_ERROR" ELSE "READY")
+             /\ (Ev.ok /\ c.op \in {"begin", "ctx_enter"}) => tstate[i] = "IN_TRANSACTION"
              \* C16: after an abortable error commit raises THAT error
              /\ (c.op \in {"commit", "ctx_exit_ok"} /\ c.st = "ABORTABLE_ERROR" /\ tstate[i] = "ABORTABLE_ERROR") => Ev.err = abErr[i]
              \* C07: when only retriable faults occur every transaction ends the way the application requested --
@@ -172,7 +177,8 @@ TBrokerApply ==
 
 TBrokerOther ==
   /\ (IsEvent("BrokerReject") \/ IsEvent("BrokerDup") \/ IsEvent("NewInstance")
-      \/ IsEvent("AddOffsetsReply") \/ IsEvent("TxnOffsetCommitReply") \/ IsEvent("CoordinatorMoves"))
+      \/ IsEvent("AddOffsetsReply") \/ IsEvent("TxnOffsetCommitReply") \/ IsEvent("CoordinatorMoves")
+      \/ IsEvent("NodeDown") \/ IsEvent("LeaderMoves"))
   /\ Keep(<<tstate, alive, calling, curTxn, outcome, ridTxn, accepted, openB, cstate, cparts, cepoch, log, txnOff, goff, resolved, ridInst, failedR, commitSeen, abErr, fatalCause, viol>>)
 
 \* a send() future completes; successfully only for a record that is in a partition log
